@@ -161,6 +161,8 @@ def evalLayout (cfg : Cfg) (es : InEdges) (obs : Json) (heavy : Bool := true) : 
   -- C07 (same process)
   if let some r := fieldOpt obs "rep_same" then
     v := v.add "C07rep" (← r.getBool?) "repeated-call-differs"
+  if let some r := fieldOpt obs "optlist_same" then
+    v := v.add "C07rep" (← r.getBool?) "repeated call with the same option list differs after a call with a shorter list sharing its backing array"
   if let some r := fieldOpt obs "mon_same" then
     v := v.add "C18same" (← r.getBool?) "layout-differs-with-monitor"
   if let some r := fieldOpt obs "inputmod" then
